@@ -421,6 +421,12 @@ def c07(r):
         # a season ends on the FIRST day the crop is mature: on the day before the harvest step the crop was not yet
         # mature (calendar-day crops: days after planting below the maturity length; thermal crops: degree days
         # accumulated since planting below the maturity threshold) — computed from the daily table, not the flags
+        # a season's planting date, when simulated, is a growing day (all crop flags are cleared at the season start)
+        for k, p_k in enumerate(pl):
+            if p_k in set(ts) and 0 <= k < len(hv) and p_k + 1 <= hv[k]:
+                if int(r.flux[p_k, F_SEASON]) == k and not gs_of(r, p_k):
+                    out.append(V("C07", "planting-day-not-growing", r, int(p_k), "the crop does not start growing on the season's planting date",
+                                 season=int(k), dap=int(r.flux[p_k, F_DAP])))
         if not ctx["off_season"]:
             simulated = set(ts)
             for k, h in hsteps.items():
